@@ -261,6 +261,39 @@ func sameModuloOrder(a, b runResult) bool {
 	return strings.Join(x, ",") == strings.Join(y, ",")
 }
 
+func snapshotAll(m types.TemplateManager) string {
+	tps := html.VerifTemplates(m)
+	names := make([]string, 0, len(tps))
+	for n := range tps {
+		names = append(names, n)
+	}
+	sort.Strings(names)
+	var sb strings.Builder
+	for _, n := range names {
+		sb.WriteString(n + "=" + html.VerifSnapshot(tps[n]) + "\n")
+	}
+	return sb.String()
+}
+
+func firstDiff(a, b string) string {
+	i := 0
+	for i < len(a) && i < len(b) && a[i] == b[i] {
+		i++
+	}
+	lo := i - 60
+	if lo < 0 {
+		lo = 0
+	}
+	hi := i + 60
+	cut := func(s string) string {
+		if hi > len(s) {
+			return s[lo:]
+		}
+		return s[lo:hi]
+	}
+	return fmt.Sprintf("%q vs %q", cut(a), cut(b))
+}
+
 func copyData(d map[string]any) map[string]any {
 	c := map[string]any{}
 	for k, v := range d {
@@ -293,12 +326,16 @@ func genTmplCase(r *Rng, out *outFiles) {
 		name = "nosuch.html"
 	}
 	line, rs := implRender(cfg, ts.Files, name, runs)
-	var c16, c05, c12, c02, c08 string
+	var c16, c05, c12, c02, c08, c15 string
 	if strings.Contains(line, "PANIC") {
 		c08 = line
 	}
 	if rs != nil {
 		m, _ := newManager(cfg, ts.Files)
+		snapBefore := snapshotAll(m)
+		defer func() {
+			_ = snapBefore
+		}()
 		// C16: every run equals the same data on a fresh template object
 		for i, run := range runs {
 			tpl, _ := m.GetTemplate(name)
@@ -318,6 +355,10 @@ func genTmplCase(r *Rng, out *outFiles) {
 					c12 = "calls were made after the writer failed: " + rs[i].log + " vs " + full.log
 				}
 			}
+		}
+		// C15: executing templates never writes to the shared parsed trees (incl. the Tag caches)
+		if after := snapshotAll(m); after != snapBefore {
+			c15 = "the shared parsed tree changed during Execute: " + firstDiff(snapBefore, after)
 		}
 		// C05: the order in which control attributes are written does not matter
 		reorderCtl(r, ts.MainTree)
@@ -371,5 +412,5 @@ func genTmplCase(r *Rng, out *outFiles) {
 		}
 	}
 	out.count("soup")
-	out.put(renderCase(cfg, ts.Files, name, runs), line, verdict("C16", c16), verdict("C05", c05), verdict("C12", c12), verdict("C02", c02), verdict("C08", c08))
+	out.put(renderCase(cfg, ts.Files, name, runs), line, verdict("C16", c16), verdict("C05", c05), verdict("C12", c12), verdict("C02", c02), verdict("C08", c08), verdict("C15", c15))
 }
